@@ -217,9 +217,13 @@ def verify(contract, repo, tier="quick"):
             return res
         res["n_paths"] += len(paths)
         res["inlined"] = sorted(set(res["inlined"]) | set("%s::%s@%s" % (i["file"], i["qualname"], i["sha256"][:12]) for i in E.inlined.values()))
-        if case.args is not None and len(paths) < case.expect_paths:
-            res["error"] = "case %s: %d paths (< %d expected): vacuous" % (case.label, len(paths), case.expect_paths)
+        if case.args is not None and len(paths) == 0:
+            res["error"] = "case %s: no path through the function (%d expected): vacuous" % (case.label, case.expect_paths)
             return res
+        if case.args is not None and len(paths) < case.expect_paths:
+            # fewer paths than when the contract was written: the code lost a case distinction.  The obligations of the remaining paths are
+            # still generated (a lost distinction that matters fails one of them); the fact is recorded in the evidence.
+            res.setdefault("notes", []).append("case %s: %d paths, %d when the contract was written" % (case.label, len(paths), case.expect_paths))
         obls = []
         for i, (kind, val, st) in enumerate(paths):
             try:
